@@ -97,6 +97,18 @@ def gen_e2e(tier):
                 names.append(nm)
         scs.append(progs.scenario(len(scs) + 1, steps, exec_=ex, parallelism=rng.choice([0, 2]),
                                   machprocs=rng.choice([1, 2]) if ex == 'bigmachine' else 0))
+    # a reply of Worker.Run is lost on the network while the machine stays up: the call is retried, the worker
+    # answers for the task it already ran, and the result's metrics must still be the task's metrics
+    for _ in range(8 if tier == 'quick' else 80):
+        g0 = progs.Gen(rng)
+        i = g0.source()
+        for k in range(rng.choice([1, 2, 3])):
+            op = rng.choice(['map', 'filter'])
+            i = g0.add(progs.N(op, **{'in': [i]}, f=rng.choice(['inc', 'kmod', 'swap']) if op == 'map' else rng.choice(['even', 'knz'])), g0.kind[i], g0.nsh[i])
+        p0 = {'nodes': g0.nodes, 'out': i, 'taps': []}
+        plans = [{'method': 'Worker.Run', 'ordinal': rng.choice([1, 1, 2, 3]), 'phase': 'drop', 'bytes': 0}]
+        steps = [{'do': 'kills', 'as': '', 'res': '', 'args': [], 'kills': plans}, progs.step_run('r0', p0), progs.step_scan('r0')]
+        scs.append(progs.scenario(len(scs) + 1, steps, exec_='bigmachine', interpose=True, parallelism=rng.choice([1, 2]), machprocs=1, timeout_s=90))
     return scs
 
 
